@@ -330,6 +330,36 @@ def build_pipeline(op: str, subs: List[Any]):
     raise ValueError(op)
 
 
+def _plain_source():
+    from reactivex import Observable
+    from reactivex.disposable import Disposable
+
+    class PlainSource(Observable):
+        def __init__(self):
+            super().__init__()
+            self.obs = None
+
+        def _subscribe_core(self, observer, scheduler=None):
+            self.obs = observer
+            return Disposable(lambda: setattr(self, "obs", None))
+
+        def on_next(self, v):
+            o = self.obs
+            if o is not None:
+                o.on_next(v)
+
+        def on_error(self, e):
+            o = self.obs
+            if o is not None:
+                o.on_error(e)
+
+        def on_completed(self):
+            o = self.obs
+            if o is not None:
+                o.on_completed()
+    return PlainSource()
+
+
 def ser_build(sc: Dict[str, Any]):
     """build(ds) for one scenario: real Subjects, the real combinator, one logical thread per source.
     sc["order"] is the ARRIVAL order of the notifications (which source starts its next one): a source thread waits
@@ -344,6 +374,10 @@ def ser_build(sc: Dict[str, Any]):
         ds.rig = rig
         rig.turn = 0
         subs = [Subject() for _ in scripts]
+        if sc.get("plain"):
+            # a source that is NOT a Subject (what reactivex.create gives): nothing but the operator itself takes
+            # `source.lock`, so the operator's own discipline is all that serializes its handlers
+            subs[0] = _plain_source()
         if isinstance(subs[0].lock, QuietRLock):
             subs[0].lock = LeanRLock()          # the first source is `source` / `parent` / `left_source`: its lock is the operator's
         xs = build_pipeline(op, subs)
@@ -626,7 +660,9 @@ def ser_scenarios(tier: str, seed: int) -> List[Dict[str, Any]]:
     win_all = [("NSNC",), ("NNSE",), ("SNSC",), ("NSNSNC",), ("NNSNNSC",), ("SSNE",), ("NSSNC",), ("SC",), ("SE",)]
     for k, op in enumerate(WINDOW_OPS):
         for scr in (win_all[:2] if quick else win_all):
+            n0 = len(out)
             add(op, scr, 1)
+            out.extend(dict(x, plain=True) for x in out[n0:])      # the same with a source that is not a Subject
     # three sources
     tri = [("NC", "NC", "NE")] if quick else [("NC", "NC", "NE"), ("NNC", "NC", "NC"), ("NE", "NNC", "NC"), ("NC", "NE", "NNC")]
     for op in ("merge3", "zip3", "combine_latest3", "with_latest_from3", "amb3"):
